@@ -407,10 +407,17 @@ def name_pattern(ck, S, fn, rid, date_is_class):
         fl = skip_copies(eargs[0]).get("cv")
     # QDir::Files = 0x002, Dirs = 0x001, Hidden = 0x100: every file that can carry a rotated name must be listed, also the rotated
     # files of a dot-file log (~/.app.log), which QDir leaves out unless Hidden is given; directories are no candidates
-    okf = fl is not None and bool(fl & 0x002) and bool(fl & 0x100) and not (fl & 0x001)
-    ck.ob(rid, sitestr(fn, el[0]), okf if fl is not None else None, "regular files, hidden ones included, are listed (QDir::Files | QDir::Hidden)" if okf else
+    # the retention listing looks at regular files only (a directory is never removed); the index search must see EVERY entry that occupies a name -
+    # a rename onto a directory called <rotated name> fails as well, and if the search does not see it the same index is handed out for ever
+    if date_is_class:
+        okf = fl is not None and bool(fl & 0x002) and bool(fl & 0x100) and not (fl & 0x001)
+    else:
+        okf = fl is not None and bool(fl & 0x002) and bool(fl & 0x100) and bool(fl & 0x001)
+    ck.ob(rid, sitestr(fn, el[0]), okf if fl is not None else None, ("regular files, hidden ones included, are listed (QDir::Files | QDir::Hidden)" if date_is_class else "every entry that occupies a name is listed (files, directories, hidden ones)") if okf else
           "entryList filter is %s: %s" % (hex(fl) if fl is not None else "not a constant", "hidden files are left out, so for a log file whose name starts with a dot no rotated file is ever seen "
-          "(next index always 1: the previous archive is overwritten; retention never deletes)" if fl is not None and fl & 2 and not fl & 0x100 else "not exactly the regular files"), key="%s|entry-filter" % short)
+          "(next index always 1: the previous archive is overwritten; retention never deletes)" if fl is not None and fl & 2 and not fl & 0x100 else
+          "directories are left out of the index search: a directory that has the name of the next rotated file makes every rename fail, the index is never advanced and the active file grows without bound"
+          if (not date_is_class and fl is not None and not fl & 1) else "not exactly the regular files"), key="%s|entry-filter" % short)
     # the two variants are selected by suffix.isEmpty()
     return tpls
 
